@@ -133,6 +133,39 @@ Section Static.
   Qed.
   Lemma gs_nonref x : KP nonref (gs x). Proof. apply gspec_nonref. Qed.
 
+  (* ---- acceptance ---- *)
+  Definition acc (x : str) : bool := accepts g0 (S (rank x)) x.
+
+  Lemma forallb_ext_in {A} (f g : A -> bool) l : (forall a, In a l -> f a = g a) -> forallb f l = forallb g l.
+  Proof. induction l as [|a l IH]; intros H; simpl; [reflexivity|]. rewrite (H a) by (left; reflexivity). f_equal. apply IH. intros b Hb. apply H. right. exact Hb. Qed.
+
+  Lemma accepts_fuel f1 : forall f2 x, (rank x < f1)%nat -> (rank x < f2)%nat -> accepts g0 f1 x = accepts g0 f2 x.
+  Proof.
+    induction f1 as [|f1 IH]; intros f2 x H1 H2; [lia|]. destruct f2 as [|f2]; [lia|].
+    cbn [accepts].
+    assert (E1 : forallb (fun e => is_terminal (n_type (node_of g0 (e_to e))) || (accepts g0 f1 (e_to e) && negb (is_nil (gspec g0 f1 (e_to e))))) (edges_from g0 x)
+               = forallb (fun e => is_terminal (n_type (node_of g0 (e_to e))) || (accepts g0 f2 (e_to e) && negb (is_nil (gspec g0 f2 (e_to e))))) (edges_from g0 x)).
+    { apply forallb_ext_in. intros e He. destruct (ranked x e He) as [_ Hr].
+      destruct (is_terminal _); [reflexivity|]. cbn [orb]. rewrite (IH f2 (e_to e)) by lia.
+      rewrite (gspec_fuel f1 f2 (e_to e)) by lia. reflexivity. }
+    rewrite E1. rewrite (gspec_fuel (S f1) (S f2) x) by lia. reflexivity.
+  Qed.
+
+  Lemma acc_equation x :
+    acc x =
+    (negb (needs_edges (kind_of (n_type (node_of g0 x)) (n_label (node_of g0 x)))) || negb (is_nil (edges_from g0 x))) &&
+    forallb (fun e => is_terminal (n_type (node_of g0 (e_to e))) || (acc (e_to e) && negb (is_nil (gs (e_to e))))) (edges_from g0 x) &&
+    match kind_of (n_type (node_of g0 x)) (n_label (node_of g0 x)) with REnforce => negb (is_nil (gs x)) | _ => true end.
+  Proof.
+    unfold acc at 1. cbn [accepts].
+    assert (E1 : forallb (fun e => is_terminal (n_type (node_of g0 (e_to e))) || (accepts g0 (rank x) (e_to e) && negb (is_nil (gspec g0 (rank x) (e_to e))))) (edges_from g0 x)
+               = forallb (fun e => is_terminal (n_type (node_of g0 (e_to e))) || (acc (e_to e) && negb (is_nil (gs (e_to e))))) (edges_from g0 x)).
+    { apply forallb_ext_in. intros e He. destruct (ranked x e He) as [_ Hr].
+      destruct (is_terminal _); [reflexivity|]. cbn [orb]. unfold acc. rewrite (accepts_fuel (rank x) (S (rank (e_to e))) (e_to e)) by lia.
+      rewrite (gspec_gs (rank x) (e_to e)) by lia. reflexivity. }
+    rewrite E1. reflexivity.
+  Qed.
+
   (* ---- wildcards ---- *)
   Lemma flat_map_ext_in {A B} (f g : A -> list B) l : (forall a, In a l -> f a = g a) -> flat_map f l = flat_map g l.
   Proof. induction l as [|a l IH]; intros H; simpl; [reflexivity|]. rewrite (H a) by (left; reflexivity). f_equal. apply IH. intros b Hb. apply H. right. exact Hb. Qed.
@@ -210,6 +243,68 @@ Proof.
         apply (mixed_strategy_computes s id s' init last); [unfold es in E; rewrite E; exact El|exact H2]. }
     inversion H; subst. split; [reflexivity|]. right. split; reflexivity.
   - inversion H; subst. split; [reflexivity|]. left. apply Hmax. assumption.
+Qed.
+
+
+(* when the node's own step succeeds: it had edges if its kind needs them, and an intersection kept a type;
+   and conversely these conditions make it succeed *)
+Lemma enforce_fold_is_weights first rest :
+  fold_left (fun w e => fold_left (fun acc kv => match wget (fst kv) (e_weights e) with
+                                                 | None => wdel (fst kv) acc
+                                                 | Some v => wset (fst kv) (N.max (snd kv) v) acc
+                                                 end) w w) rest
+            (fold_left (fun w kv => wset (fst kv) (snd kv) w) (e_weights first) [])
+  = enforce_weights (e_weights first) (map e_weights rest).
+Proof. unfold enforce_weights. rewrite fold_left_map. reflexivity. Qed.
+
+Lemma from_edges_conditions s id tcs' s' :
+  is_terminal (n_type (nd s id)) = false -> from_edges s id [] = (tcs', Ok s') ->
+  (needs_edges (kind_of (n_type (nd s id)) (n_label (nd s id))) = true -> es s id <> []) /\
+  (kind_of (n_type (nd s id)) (n_label (nd s id)) = REnforce ->
+   pure_weights REnforce (map e_weights (es s id)) <> []).
+Proof.
+  intros Hnt H. unfold from_edges in H. cbn [fst snd] in H. fold (nd s id) in H.
+  assert (Hmax : forall s1, max_strategy s id = Ok s1 -> es s id <> []).
+  { intros s1 H1 E. unfold max_strategy in H1. unfold es in E. rewrite E in H1. fold (nd s id) in H1. rewrite Hnt in H1. discriminate. }
+  unfold kind_of. destruct (n_type (nd s id)) eqn:T.
+  - inversion H as [[H1 H2]]. split; [intros _; eapply Hmax; eauto|discriminate].
+  - inversion H as [[H1 H2]]. split; [intros _; eapply Hmax; eauto|discriminate].
+  - destruct (str_eqb (n_label (nd s id)) (lit "union")).
+    { inversion H as [[H1 H2]]. split; [intros _; eapply Hmax; eauto|discriminate]. }
+    destruct (str_eqb (n_label (nd s id)) (lit "intersection")).
+    { inversion H as [[H1 H2]]. unfold enforce_strategy in H2. fold (nd s id) in H2. fold (es s id) in H2.
+      destruct (es s id) as [|f r] eqn:E; [rewrite T in H2; discriminate|].
+      rewrite enforce_fold_is_weights in H2. split; [intros _; discriminate|]. intros _. cbn [pure_weights map].
+      destruct (enforce_weights (e_weights f) (map e_weights r)); [discriminate|discriminate]. }
+    destruct (str_eqb (n_label (nd s id)) (lit "exclusion")).
+    { inversion H as [[H1 H2]]. split; [|discriminate]. intros _ E. unfold mixed_strategy in H2. unfold es in E. rewrite E in H2.
+      fold (nd s id) in H2. rewrite T in H2. discriminate. }
+    split; [discriminate|discriminate].
+  - inversion H as [[H1 H2]]. split; [intros _; eapply Hmax; eauto|discriminate].
+Qed.
+
+Lemma from_edges_ok s id :
+  is_terminal (n_type (nd s id)) = false ->
+  (needs_edges (kind_of (n_type (nd s id)) (n_label (nd s id))) = true -> es s id <> []) ->
+  (kind_of (n_type (nd s id)) (n_label (nd s id)) = REnforce -> pure_weights REnforce (map e_weights (es s id)) <> []) ->
+  exists s', from_edges s id [] = ([], Ok s').
+Proof.
+  intros Hnt Hne Henf. unfold from_edges. cbn [fst snd]. fold (nd s id).
+  assert (Hmax : es s id <> [] -> exists s', max_strategy s id = Ok s').
+  { intros E. unfold max_strategy. fold (es s id). destruct (es s id); [contradiction|]. eexists; reflexivity. }
+  revert Hne Henf. unfold kind_of. destruct (n_type (nd s id)) eqn:T; intros Hne Henf.
+  - destruct (Hmax (Hne eq_refl)) as [s' ->]. eauto.
+  - destruct (Hmax (Hne eq_refl)) as [s' ->]. eauto.
+  - destruct (str_eqb (n_label (nd s id)) (lit "union")).
+    { destruct (Hmax (Hne eq_refl)) as [s' ->]. eauto. }
+    destruct (str_eqb (n_label (nd s id)) (lit "intersection")).
+    { specialize (Hne eq_refl). specialize (Henf eq_refl). unfold enforce_strategy. fold (es s id).
+      destruct (es s id) as [|f r]; [contradiction|]. rewrite enforce_fold_is_weights. cbn [pure_weights map] in Henf.
+      destruct (enforce_weights (e_weights f) (map e_weights r)); [contradiction|]. eauto. }
+    destruct (str_eqb (n_label (nd s id)) (lit "exclusion")).
+    { specialize (Hne eq_refl). unfold mixed_strategy. fold (es s id). destruct (es s id); [contradiction|]. eauto. }
+    eauto.
+  - destruct (Hmax (Hne eq_refl)) as [s' ->]. eauto.
 Qed.
 
 (* the target's weights are copied when none of their keys is a placeholder *)
@@ -373,6 +468,7 @@ Section Dyn.
   Notation ew := (ew g0 rank).
   Notation wsx := (wsx g0 rank).
   Notation ews := (ews g0 rank).
+  Notation acc := (acc g0 rank).
 
   Definition Shape (s : wstate) : Prop := forall x,
     has_node (ws_g s) x = has_node g0 x /\ n_type (nd s x) = n_type (node_of g0 x) /\
@@ -393,7 +489,8 @@ Section Dyn.
     inv_done : forall x, In x (ws_visited s) -> ~ In x A -> Done s x /\ WDone s x;
     inv_A : forall a, In a A -> In a (ws_visited s);
     inv_nodup : forall x, is_terminal (n_type (node_of g0 x)) = false ->
-                          NoDup (fst (wv s x)) /\ Forall (fun p => NoDup (snd p)) (snd (wv s x)) }.
+                          NoDup (fst (wv s x)) /\ Forall (fun p => NoDup (snd p)) (snd (wv s x));
+    inv_acc : forall x, In x (ws_visited s) -> ~ In x A -> acc x = true }.
 
   (* nodes visited before are left alone (except, inside a node's own loop, that node) *)
   Definition Frame (ex : option str) (s s' : wstate) : Prop :=
@@ -428,7 +525,7 @@ Section Dyn.
     (is_terminal (n_type (node_of g0 id)) = false -> NoDup (fst (wv s' id)) /\ Forall (fun p => NoDup (snd p)) (snd (wv s' id))) ->
     Inv A s'.
   Proof.
-    intros HA [Sh Dp Fr Dn IA ND] Hv Hd Hn He Hs Hw Hnd. split.
+    intros HA [Sh Dp Fr Dn IA ND AC] Hv Hd Hn He Hs Hw Hnd. split.
     - intros x. destruct (Sh x) as (S1 & S2 & S3 & S4). destruct (nview_parts _ _ _ (Hn x)) as (N1 & N2 & N3 & _).
       repeat split; try congruence.
       destruct (str_eqb_spec x id) as [->|Hx]; [congruence|]. rewrite (He x Hx). exact S4.
@@ -445,6 +542,7 @@ Section Dyn.
       + unfold WDone. rewrite (Hw x H). exact WD.
     - intros a Ha. rewrite Hv. apply IA. exact Ha.
     - intros x Hx. destruct (str_eqb_spec x id) as [->|Hne]; [apply Hnd; exact Hx|]. rewrite (Hw x Hne). apply ND. exact Hx.
+    - intros x Hx HxA. rewrite Hv in Hx. apply AC; assumption.
   Qed.
 
   (* shapes of the current edges are those of the unweighted graph: rank and source *)
@@ -805,21 +903,27 @@ Section Dyn.
   Qed.
 
 
+  (* the edges before i lead to a type, a wildcard, or an accepted node with a weight map that is not empty *)
+  Definition aprogress (id : str) (i : nat) : Prop :=
+    forall j e0, (j < i)%nat -> nth_error (edges_from g0 id) j = Some e0 ->
+      is_terminal (n_type (node_of g0 (e_to e0))) = true \/ (acc (e_to e0) = true /\ gs (e_to e0) <> []).
+
   Lemma edge_loop_spec rec_edge A id path :
     EdgeSpec rec_edge -> chain A id -> path_in (id :: A) path ->
     is_terminal (n_type (node_of g0 id)) = false ->
     forall k i s tc s',
-      Inv (id :: A) s -> n_weights (nd s id) = [] -> progress id i s -> wprogress id i s ->
+      Inv (id :: A) s -> n_weights (nd s id) = [] -> progress id i s -> wprogress id i s -> aprogress id i ->
       (k + i = length (es s id))%nat ->
       edge_loop (fun r s => rec_edge r path s) id k i [] s = (tc, None, s') ->
       tc = [] /\ Inv A s' /\ Frame (Some id) s s'.
   Proof.
-    intros HE Hch Hp Hnt. induction k as [|k IH]; intros i s tc s' HI Hw Hpr Hwp Hlen H.
+    intros HE Hch Hp Hnt. induction k as [|k IH]; intros i s tc s' HI Hw Hpr Hwp Hap Hlen H.
     - (* all edges done: the node's own weights *)
       cbn [edge_loop] in H. destruct (from_edges s id []) as [tcs' r] eqn:Efe.
       destruct r as [s2|err|w]; try discriminate. inversion H; subst tc s'. clear H.
       destruct (inv_shape _ _ HI id) as (Sh1 & Sh2 & Sh3 & Sh4).
       assert (Hnt' : is_terminal (n_type (nd s id)) = false) by (rewrite Sh2; exact Hnt).
+      destruct (from_edges_conditions s id tcs' s2 Hnt' Efe) as [Cne Cenf].
       destruct (from_edges_pure s id tcs' s2 Hnt' Efe) as [-> Hs2]. split; [reflexivity|].
       cbv zeta in Hs2.
       (* the edge weights are all final *)
@@ -833,6 +937,20 @@ Section Dyn.
         - transitivity (map snd (eview s id)); [unfold eview; rewrite map_map; reflexivity|].
           apply map_ext_in. intros p Hin. rewrite Forall_forall in Hall. apply Hall. exact Hin.
         - rewrite <- (map_map fst ew). rewrite Sh4. rewrite map_map. reflexivity. }
+      (* the node is accepted by the specification *)
+      assert (Hlen0 : length (edges_from g0 id) = length (es s id)).
+      { rewrite <- (map_length eshape (edges_from g0 id)), <- Sh4. unfold eview. rewrite !map_length. reflexivity. }
+      assert (ACid : acc id = true).
+      { rewrite (acc_equation g0 rank ranked id). rewrite Sh2, Sh3 in Cne, Cenf. apply andb_true_intro. split; [apply andb_true_intro; split|].
+        - destruct (needs_edges _) eqn:Nk; [|reflexivity]. cbn [negb orb].
+          destruct (edges_from g0 id) eqn:E0; [|reflexivity]. exfalso. apply (Cne eq_refl).
+          destruct (es s id); [reflexivity|]. simpl in Hlen0. discriminate.
+        - apply forallb_forall. intros e0 Hin. apply In_nth_error in Hin. destruct Hin as [j Hj].
+          assert (j < length (edges_from g0 id))%nat by (apply nth_error_Some; congruence).
+          destruct (Hap j e0) as [Ht|[Ha Hg]]; [lia|exact Hj|rewrite Ht; reflexivity|].
+          rewrite Ha. destruct (gs (e_to e0)); [contradiction|]. cbn. apply orb_true_r.
+        - destruct (kind_of _ _) eqn:Ek; try reflexivity. specialize (Cenf eq_refl). rewrite Sh2, Sh3, Ek in HW.
+          rewrite HW in Cenf. destruct (gs id); [contradiction|reflexivity]. }
       (* and so are the wildcard lists *)
       assert (Hlenw : length (snd (wv s id)) = length (es s id)) by (unfold wv; cbn [snd]; apply map_length).
       assert (WD : WDone s id).
@@ -861,7 +979,7 @@ Section Dyn.
         assert (Vw : forall x, wv (upd_node s id (fun n => with_weights n (gs id))) x = wv s x).
         { intros x. apply wv_upd_node_keep; reflexivity. }
         split.
-        * destruct HI as [Sh Dp Fr Dn IA ND]. split.
+        * destruct HI as [Sh Dp Fr Dn IA ND AC]. split.
           -- intros x. destruct (Sh x) as (S1 & S2 & S3 & S4).
              destruct (str_eqb_spec x id) as [->|Hx].
              ++ destruct (nview_eq _ _ _ _ _ _ Vi) as (V1 & V2 & V3 & V4).
@@ -885,24 +1003,37 @@ Section Dyn.
                 ** unfold WDone. rewrite Vw. exact WDx.
           -- intros a Ha. apply IA. right. exact Ha.
           -- intros x Hx. rewrite Vw. apply ND. exact Hx.
+          -- intros x Hx HxA. cbn [upd_node st_g ws_visited] in Hx. destruct (str_eqb_spec x id) as [->|Hne]; [exact ACid|].
+             apply AC; [exact Hx|]. intros [E|E]; [congruence|contradiction].
         * split; [auto|]. intros x Hx Hex. assert (x <> id) by congruence. split; [apply Vn; exact H|]. split; [apply Ve|apply Vw].
       + (* an operator of unknown kind: nothing stored, and nothing to store *)
         split; [|apply Frame_refl].
-        destruct HI as [Sh Dp Fr Dn IA ND]. split; auto.
+        destruct HI as [Sh Dp Fr Dn IA ND AC]. split; auto.
         * intros x Hx HxA. destruct (str_eqb_spec x id) as [->|Hne].
           -- split; [|exact WD]. split; [|exact Hall]. rewrite Hw. rewrite <- HW. symmetry. exact HW0.
           -- apply Dn; [exact Hx|]. intros [E|E]; [congruence|contradiction].
         * intros a Ha. apply IA. right. exact Ha.
+        * intros x Hx HxA. destruct (str_eqb_spec x id) as [->|Hne]; [exact ACid|].
+          apply AC; [exact Hx|]. intros [E|E]; [congruence|contradiction].
     - (* one more edge *)
       cbn [edge_loop] in H.
       destruct (edge_step (fun r s0 => rec_edge r path s0) id i s) as [[tc1 err1] s1] eqn:Es.
       destruct err1 as [x|]; [discriminate|].
       assert (Hlt : (i < length (es s id))%nat) by lia.
       destruct (nth_error (es s id) i) as [e|] eqn:He; [|apply nth_error_None in He; lia].
-      destruct (edge_step_spec rec_edge A id path HE Hch Hp Hnt i s e tc1 s1) as (-> & (HI1 & Hw1 & Hpr1 & Hwp1 & _) & Hlen1 & HF1 & _); auto.
+      destruct (edge_step_spec rec_edge A id path HE Hch Hp Hnt i s e tc1 s1) as (-> & (HI1 & Hw1 & Hpr1 & Hwp1 & _) & Hlen1 & HF1 & Htgt); auto.
       { split; [exact HI|]. split; [exact Hw|]. split; [exact Hpr|]. split; [exact Hwp|lia]. }
       cbn [app] in H.
-      destruct (IH (S i) s1 tc s' HI1 Hw1 Hpr1 Hwp1) as (-> & HI' & HF'); [lia|exact H|].
+      assert (Hap1 : aprogress id (S i)).
+      { intros j e0 Hj He0. destruct (Nat.eq_dec j i) as [->|Hne]; [|apply (Hap j e0); [lia|exact He0]].
+        assert (Eto : e_to e0 = e_to e).
+        { destruct (inv_shape _ _ HI id) as (_ & _ & _ & S4).
+          assert (Hn : nth_error (map fst (eview s id)) i = Some (eshape e)).
+          { unfold eview. rewrite map_map. apply (map_nth_error (fun x => fst (ev x)) _ _ He). }
+          rewrite S4 in Hn. rewrite (map_nth_error eshape _ _ He0) in Hn. unfold eshape in Hn. congruence. }
+        rewrite Eto. destruct Htgt as [Ht|(Tv & TnA & Tg)]; [left; exact Ht|right].
+        split; [apply (inv_acc _ _ HI1 (e_to e) Tv TnA)|exact Tg]. }
+      destruct (IH (S i) s1 tc s' HI1 Hw1 Hpr1 Hwp1 Hap1) as (-> & HI' & HF'); [lia|exact H|].
       split; [reflexivity|]. split; [exact HI'|]. apply (Frame_trans _ s s1 s'); assumption.
   Qed.
 
@@ -920,14 +1051,17 @@ Section Dyn.
     { intros Hin. apply mem_str_in in Hin. congruence. }
     set (s1 := mark_visited s id) in H.
     assert (HI1 : Inv (id :: A) s1).
-    { destruct HI as [Sh Dp Fr Dn IA ND]. split; [| | | | |exact ND].
+    { destruct HI as [Sh Dp Fr Dn IA ND AC]. split; [| | | | |exact ND|].
       - exact Sh.
       - exact Dp.
       - intros x Hx. apply Fr. intros Hin. apply Hx. unfold s1, mark_visited. cbn [ws_visited]. apply in_or_app. left. exact Hin.
       - intros x Hx HxA. unfold s1, mark_visited in Hx. cbn [ws_visited] in Hx. apply in_app_or in Hx.
         destruct Hx as [Hx|[<-|[]]]; [|exfalso; apply HxA; left; reflexivity].
         apply (Dn x Hx). intros Hin. apply HxA. right. exact Hin.
-      - intros a [<-|Ha]; unfold s1, mark_visited; cbn [ws_visited]; apply in_or_app; [right; left; reflexivity|left; auto]. }
+      - intros a [<-|Ha]; unfold s1, mark_visited; cbn [ws_visited]; apply in_or_app; [right; left; reflexivity|left; auto].
+      - intros x Hx HxA. unfold s1, mark_visited in Hx. cbn [ws_visited] in Hx. apply in_app_or in Hx.
+        destruct Hx as [Hx|[<-|[]]]; [|exfalso; apply HxA; left; reflexivity].
+        apply (AC x Hx). intros Hin. apply HxA. right. exact Hin. }
     destruct (inv_fresh _ _ HI id Hnv) as [[Fw Fe] [WFn WFe]].
     assert (Hpr : progress id 0 s1).
     { intros j p Hj. change (eview s1 id) with (eview s id) in Hj. rewrite Forall_forall in Fe.
@@ -938,7 +1072,8 @@ Section Dyn.
       - intros j p Hj. rewrite Forall_forall in WFe. apply WFe. eapply nth_error_In; eauto. }
     assert (Hp1 : path_in (id :: A) path).
     { unfold path_in in *. rewrite Forall_forall in *. intros p Hin. right. apply Hp. exact Hin. }
-    destruct (edge_loop_spec rec_edge A id path HE Hch Hp1 Tt _ 0%nat s1 tc s' HI1 Fw Hpr Hwp (Nat.add_0_r _) H) as (-> & HI' & [VF FF]).
+    assert (Hap : aprogress id 0) by (intros j e0 Hj; lia).
+    destruct (edge_loop_spec rec_edge A id path HE Hch Hp1 Tt _ 0%nat s1 tc s' HI1 Fw Hpr Hwp Hap (Nat.add_0_r _) H) as (-> & HI' & [VF FF]).
     split; [reflexivity|]. split; [exact HI'|]. split.
     - split.
       + intros x Hx. apply VF. unfold s1, mark_visited. cbn [ws_visited]. apply in_or_app. left. exact Hx.
@@ -982,35 +1117,245 @@ Section Dyn.
         intros x [<-|Hx]; [|auto].
         destruct Hfin as [Ht|[Hin _]]; [left; exact Ht|right; auto].
   Qed.
+  (* ---------------------------------------------------------------------------------------- *)
+  (* completeness: what the specification accepts goes through without an error                *)
+  (* ---------------------------------------------------------------------------------------- *)
+  Definition err_of (r : cresult) : option werr := snd (fst r).
+
+  Definition NodeOK (bound : nat) (rec_node : str -> list pentry -> wstate -> cresult) : Prop :=
+    forall A id path s,
+      Inv A s -> chain A id -> path_in A path -> (2 * rank id + 1 <= bound)%nat ->
+      (is_terminal (n_type (node_of g0 id)) = true \/ acc id = true) ->
+      err_of (rec_node id path s) = None.
+
+  Definition EdgeOK (bound : nat) (rec_edge : eref -> list pentry -> wstate -> cresult) : Prop :=
+    forall A id i path s e,
+      Inv (id :: A) s -> chain A id -> path_in (id :: A) path ->
+      nth_error (es s id) i = Some e -> is_terminal (n_type (node_of g0 (e_to e))) = false ->
+      (2 * rank (e_to e) + 2 <= bound)%nat -> acc (e_to e) = true -> gs (e_to e) <> [] ->
+      err_of (rec_edge (id, i) path s) = None.
+
+  Lemma calc_edge_body_ok bound rec_node :
+    NodeSpec rec_node -> NodeOK bound rec_node -> EdgeOK (S bound) (calc_edge_body rec_node).
+  Proof.
+    intros HN HO A id i path s e HI Hch Hp He Hnt Hb Hacc Hgs.
+    unfold calc_edge_body. unfold edge_at. cbn [fst snd]. fold (es s id). rewrite He.
+    destruct (shape_edge s id i e (inv_shape _ _ HI) He) as [Efrom Erank].
+    assert (Hne : e_from e <> e_to e) by (rewrite Efrom; intros E; rewrite <- E in Erank; lia).
+    rewrite (str_eqb_false _ _ Hne).
+    set (path' := path ++ [(e_from e, e_type e, n_type (node_of (ws_g s) (e_to e)))]).
+    assert (Hch' : chain (id :: A) (e_to e)).
+    { intros a [<-|Ha]; [exact Erank|]. specialize (Hch a Ha). lia. }
+    assert (Hp' : path_in (id :: A) path').
+    { unfold path_in, path'. apply Forall_app. split; [exact Hp|]. constructor; [|constructor]. cbn [fst]. left. symmetry. exact Efrom. }
+    assert (Hok := HO (id :: A) (e_to e) path' s HI Hch' Hp').
+    destruct (rec_node (e_to e) path' s) as [[tc1 err1] s1] eqn:E1. unfold err_of in Hok. cbn [fst snd] in Hok.
+    rewrite Hok by (try lia; right; exact Hacc).
+    destruct (HN (id :: A) (e_to e) path' s tc1 s1 HI Hch' Hp') as (-> & HI1 & HF1 & Hfin).
+    { rewrite E1. rewrite Hok by (try lia; right; exact Hacc). reflexivity. }
+    destruct Hfin as [Hterm|[Hvis HnA]]; [congruence|].
+    destruct (inv_done _ _ HI1 (e_to e) Hvis HnA) as [[Dw _] _]. fold (nd s1 (e_to e)).
+    destruct (n_weights (nd s1 (e_to e))) as [|kv0 tw0] eqn:Ew; [exfalso; apply Hgs; symmetry; exact Dw|].
+    rewrite <- Ew in Dw.
+    assert (Hk : KP nonref (n_weights (nd s1 (e_to e)))) by (rewrite Dw; apply gs_nonref; assumption).
+    rewrite (edge_from_target_nonref e (id, i) s1 Hk). reflexivity.
+  Qed.
+
+  Lemma edge_step_ok bound rec_edge A id path i s e :
+    EdgeOK bound rec_edge -> chain A id -> path_in (id :: A) path ->
+    LoopInv A id i s -> nth_error (es s id) i = Some e ->
+    (is_terminal (n_type (node_of g0 (e_to e))) = true \/
+     ((2 * rank (e_to e) + 2 <= bound)%nat /\ acc (e_to e) = true /\ gs (e_to e) <> [])) ->
+    err_of (edge_step (fun r s => rec_edge r path s) id i s) = None.
+  Proof.
+    intros HO Hch Hp (HI & Hw & Hpr & Hwp & Hle) He Hcond.
+    unfold edge_step. unfold edge_at. cbn [fst snd]. fold (es s id). rewrite He.
+    destruct (e_weights e); [|reflexivity].
+    destruct (inv_shape _ _ HI (e_to e)) as (_ & ShT & _ & _). fold (nd s (e_to e)). rewrite ShT.
+    destruct (is_terminal (n_type (node_of g0 (e_to e)))) eqn:Tt; [reflexivity|].
+    destruct Hcond as [Ht|(Hb & Ha & Hg)]; [discriminate|].
+    assert (Hok := HO A id i path s e HI Hch Hp He Tt Hb Ha Hg).
+    destruct (rec_edge (id, i) path s) as [[tc1 err1] s1]. exact Hok.
+  Qed.
+
+  (* the weights the node stores when its loop is over *)
+  Lemma final_weights A id s :
+    Inv (id :: A) s -> progress id (length (es s id)) s ->
+    pure_weights (kind_of (n_type (nd s id)) (n_label (nd s id))) (map e_weights (es s id)) = gs id.
+  Proof.
+    intros HI Hpr. destruct (inv_shape _ _ HI id) as (Sh1 & Sh2 & Sh3 & Sh4).
+    assert (Hall : Forall (fun p => snd p = ew (fst p)) (eview s id)).
+    { apply Forall_forall. intros p Hin. apply In_nth_error in Hin. destruct Hin as [j Hj].
+      rewrite (Hpr j p Hj). assert (j < length (eview s id))%nat by (apply nth_error_Some; congruence).
+      unfold eview in H. rewrite map_length in H. rewrite (proj2 (Nat.ltb_lt j _)) by lia. reflexivity. }
+    rewrite (gs_equation g0 rank ranked id). rewrite Sh2, Sh3. f_equal.
+    transitivity (map (fun p => ew (fst p)) (eview s id)).
+    - transitivity (map snd (eview s id)); [unfold eview; rewrite map_map; reflexivity|].
+      apply map_ext_in. intros p Hin. rewrite Forall_forall in Hall. apply Hall. exact Hin.
+    - rewrite <- (map_map fst ew). rewrite Sh4. rewrite map_map. reflexivity.
+  Qed.
+
+  Lemma edge_loop_ok bound rec_edge A id path :
+    EdgeSpec rec_edge -> EdgeOK bound rec_edge -> chain A id -> path_in (id :: A) path ->
+    is_terminal (n_type (node_of g0 id)) = false -> acc id = true -> (2 * rank id <= bound)%nat ->
+    forall k i s,
+      LoopInv A id i s -> (k + i = length (es s id))%nat ->
+      err_of (edge_loop (fun r s => rec_edge r path s) id k i [] s) = None.
+  Proof.
+    intros HE HO Hch Hp Hnt Hacc Hb.
+    assert (Haq := acc_equation g0 rank ranked id). rewrite Hacc in Haq. symmetry in Haq.
+    apply andb_prop in Haq. destruct Haq as [Haq Aenf]. apply andb_prop in Haq. destruct Haq as [Ane Aall].
+    rewrite forallb_forall in Aall.
+    induction k as [|k IH]; intros i s LI Hlen.
+    - cbn [edge_loop]. destruct LI as (HI & Hw & Hpr & Hwp & Hle).
+      destruct (inv_shape _ _ HI id) as (Sh1 & Sh2 & Sh3 & Sh4).
+      assert (Hnt' : is_terminal (n_type (nd s id)) = false) by (rewrite Sh2; exact Hnt).
+      assert (Hi : i = length (es s id)) by lia. subst i.
+      assert (HW := final_weights A id s HI Hpr).
+      assert (Hlen0 : length (edges_from g0 id) = length (es s id)).
+      { rewrite <- (map_length eshape (edges_from g0 id)), <- Sh4. unfold eview. rewrite !map_length. reflexivity. }
+      destruct (from_edges_ok s id Hnt') as [s' ->]; [| |reflexivity].
+      + rewrite Sh2, Sh3. intros Nk. rewrite Nk in Ane. cbn in Ane. intros E. rewrite E in Hlen0.
+        destruct (edges_from g0 id); [discriminate|discriminate].
+      + rewrite Sh2, Sh3. intros Ek. rewrite Ek in Aenf. rewrite Sh2, Sh3, Ek in HW. rewrite HW.
+        destruct (gs id); [discriminate|discriminate].
+    - cbn [edge_loop].
+      assert (Hlt : (i < length (es s id))%nat) by lia.
+      destruct (nth_error (es s id) i) as [e|] eqn:He; [|apply nth_error_None in He; lia].
+      (* the edge of the unweighted graph at this position *)
+      assert (HI := proj1 LI). destruct (inv_shape _ _ HI id) as (_ & _ & _ & S4).
+      assert (Hn : nth_error (map eshape (edges_from g0 id)) i = Some (eshape e)).
+      { rewrite <- S4. unfold eview. rewrite map_map. apply (map_nth_error (fun x => fst (ev x)) _ _ He). }
+      apply nth_error_map_inv in Hn. destruct Hn as [e0 [He0 Esh0]].
+      assert (Eto : e_to e0 = e_to e) by (unfold eshape in Esh0; congruence).
+      assert (Hcond : is_terminal (n_type (node_of g0 (e_to e))) = true \/
+                      ((2 * rank (e_to e) + 2 <= bound)%nat /\ acc (e_to e) = true /\ gs (e_to e) <> [])).
+      { specialize (Aall e0 (nth_error_In _ _ He0)). rewrite Eto in Aall.
+        destruct (is_terminal (n_type (node_of g0 (e_to e)))); [left; reflexivity|right]. cbn [orb] in Aall.
+        apply andb_prop in Aall. destruct Aall as [Aa Ag].
+        destruct (ranked id e0 (nth_error_In _ _ He0)) as [_ Hr]. rewrite Eto in Hr.
+        split; [lia|]. split; [exact Aa|]. destruct (gs (e_to e)); [discriminate|discriminate]. }
+      assert (Hok := edge_step_ok bound rec_edge A id path i s e HO Hch Hp LI He Hcond).
+      destruct (edge_step (fun r s0 => rec_edge r path s0) id i s) as [[tc1 err1] s1] eqn:Es.
+      unfold err_of in Hok. cbn [fst snd] in Hok. subst err1.
+      destruct (edge_step_spec rec_edge A id path HE Hch Hp Hnt i s e tc1 s1 LI He Es) as (-> & LI1 & Hlen1 & _ & _).
+      cbn [app]. apply IH; [exact LI1|lia].
+  Qed.
+
+  Lemma calc_node_body_ok bound rec_edge :
+    EdgeSpec rec_edge -> EdgeOK bound rec_edge -> NodeOK (S bound) (calc_node_body rec_edge).
+  Proof.
+    intros HE HO A id path s HI Hch Hp Hb Hacc. unfold calc_node_body.
+    destruct (mem_str id (ws_visited s)) eqn:Hm; [reflexivity|].
+    destruct (inv_shape _ _ HI id) as (_ & Sh2 & _ & _). fold (nd s id). rewrite Sh2.
+    destruct (is_terminal (n_type (node_of g0 id))) eqn:Tt; [reflexivity|].
+    destruct Hacc as [Ht|Hacc]; [discriminate|].
+    assert (Hnv : ~ In id (ws_visited s)).
+    { intros Hin. apply mem_str_in in Hin. congruence. }
+    set (s1 := mark_visited s id).
+    assert (HI1 : Inv (id :: A) s1).
+    { destruct HI as [Sh Dp Fr Dn IA ND AC]. split; [| | | | |exact ND|].
+      - exact Sh.
+      - exact Dp.
+      - intros x Hx. apply Fr. intros Hin. apply Hx. unfold s1, mark_visited. cbn [ws_visited]. apply in_or_app. left. exact Hin.
+      - intros x Hx HxA. unfold s1, mark_visited in Hx. cbn [ws_visited] in Hx. apply in_app_or in Hx.
+        destruct Hx as [Hx|[<-|[]]]; [|exfalso; apply HxA; left; reflexivity].
+        apply (Dn x Hx). intros Hin. apply HxA. right. exact Hin.
+      - intros a [<-|Ha]; unfold s1, mark_visited; cbn [ws_visited]; apply in_or_app; [right; left; reflexivity|left; auto].
+      - intros x Hx HxA. unfold s1, mark_visited in Hx. cbn [ws_visited] in Hx. apply in_app_or in Hx.
+        destruct Hx as [Hx|[<-|[]]]; [|exfalso; apply HxA; left; reflexivity].
+        apply (AC x Hx). intros Hin. apply HxA. right. exact Hin. }
+    destruct (inv_fresh _ _ HI id Hnv) as [[Fw Fe] [WFn WFe]].
+    assert (LI : LoopInv A id 0 s1).
+    { split; [exact HI1|]. split; [exact Fw|]. split; [|split; [|lia]].
+      - intros j p Hj. change (eview s1 id) with (eview s id) in Hj. rewrite Forall_forall in Fe.
+        apply Fe. eapply nth_error_In; eauto.
+      - unfold wprogress. change (wv s1 id) with (wv s id). split.
+        + intros T. rewrite (WFn Tt). split; [intros []|]. intros (j & p & Hj & _). lia.
+        + intros j p Hj. rewrite Forall_forall in WFe. apply WFe. eapply nth_error_In; eauto. }
+    assert (Hp1 : path_in (id :: A) path).
+    { unfold path_in in *. rewrite Forall_forall in *. intros p Hin. right. apply Hp. exact Hin. }
+    apply (edge_loop_ok bound rec_edge A id path HE HO Hch Hp1 Tt Hacc); [lia|exact LI|unfold es; lia].
+  Qed.
+
+  Lemma calc_ok fuel : NodeOK fuel (calc_node fuel) /\ EdgeOK fuel (calc_edge fuel).
+  Proof.
+    induction fuel as [|f [IHn IHe]].
+    - split.
+      + intros A id path s _ _ _ Hb _. lia.
+      + intros A id i path s e _ _ _ _ _ Hb _ _. lia.
+    - split.
+      + apply calc_node_body_ok; [apply calc_specs|exact IHe].
+      + apply calc_edge_body_ok; [apply calc_specs|exact IHn].
+  Qed.
+
+  Lemma assign_loop_ok fuel order : forall s,
+    Inv [] s ->
+    (forall x, In x order -> is_terminal (n_type (node_of g0 x)) = true \/ acc x = true) ->
+    (forall x, In x order -> (2 * rank x + 1 <= fuel)%nat) ->
+    exists s', assign_loop fuel order s = Ok s'.
+  Proof.
+    induction order as [|id order IH]; intros s HI Hacc Hb; cbn [assign_loop]; [eauto|].
+    destruct (mem_str id (ws_visited s)); [apply IH; auto; intros; [apply Hacc|apply Hb]; right; assumption|].
+    assert (Hok := proj1 (calc_ok fuel) [] id [] s HI).
+    destruct (calc_node fuel id [] s) as [[tcs err] s1] eqn:E. unfold err_of in Hok. cbn [fst snd] in Hok.
+    rewrite Hok; [|intros a []|constructor|apply Hb; left; reflexivity|apply Hacc; left; reflexivity].
+    destruct (proj1 (calc_specs fuel) [] id [] s tcs s1 HI) as (-> & HI1 & _ & _).
+    { intros a []. }
+    { constructor. }
+    { rewrite E. rewrite Hok; [reflexivity|intros a []|constructor|apply Hb; left; reflexivity|apply Hacc; left; reflexivity]. }
+    apply IH; auto; intros; [apply Hacc|apply Hb]; right; assumption.
+  Qed.
+
 End Dyn.
 
 (* ---------------------------------------------------------------------------------------- *)
 (* 6. the theorems                                                                           *)
 (* ---------------------------------------------------------------------------------------- *)
+Lemma initial_inv g0 rank : unweighted g0 -> Inv g0 rank [] {| ws_g := g0; ws_visited := []; ws_deps := [] |}.
+Proof.
+  intros (Un & Ue & Uw & Uew). set (s0 := {| ws_g := g0; ws_visited := []; ws_deps := [] |}). split.
+  - intros y. repeat split; try reflexivity. unfold eview, es. cbn [ws_g s0]. rewrite map_map. reflexivity.
+  - reflexivity.
+  - intros y _. split.
+    + split; [apply Un|]. apply Forall_forall. intros p Hp. unfold eview in Hp. apply in_map_iff in Hp.
+      destruct Hp as [e [<- He]]. cbn [snd ev]. apply (Ue y). exact He.
+    + split; [intros Hnt; apply (Uw y Hnt)|]. apply Forall_forall. intros p Hp. unfold wv in Hp. cbn [snd] in Hp.
+      apply in_map_iff in Hp. destruct Hp as [e [<- He]]. cbn [snd ewv]. apply (Uew y). exact He.
+  - intros y [].
+  - intros a [].
+  - intros y Hnt. unfold wv. cbn [fst snd]. split; [change (nd s0 y) with (node_of g0 y); rewrite (Uw y Hnt); constructor|].
+    apply Forall_forall. intros p Hp. apply in_map_iff in Hp. destruct Hp as [e [<- He]]. cbn [snd ewv].
+    rewrite (Uew y e He). constructor.
+  - intros y [].
+Qed.
+
 Lemma dag_invariant g0 rank order g' :
   ranked_by g0 rank -> terminals_not_placeholders g0 -> unweighted g0 ->
   assign_weights order g0 = Ok g' ->
   exists s', ws_g s' = g' /\ Inv g0 rank [] s' /\ forall x, In x order -> reached g0 s' x.
 Proof.
-  intros Hr Ht (Un & Ue & Uw & Uew) H. unfold assign_weights in H.
+  intros Hr Ht Hu H. unfold assign_weights in H.
   set (s0 := {| ws_g := g0; ws_visited := []; ws_deps := [] |}) in H.
   destruct (assign_loop _ order s0) as [s'| |] eqn:E; try discriminate. inversion H; subst g'. clear H.
-  assert (HI0 : Inv g0 rank [] s0).
-  { split.
-    - intros y. repeat split; try reflexivity. unfold eview, es. cbn [ws_g s0]. rewrite map_map. reflexivity.
-    - reflexivity.
-    - intros y _. split.
-      + split; [apply Un|]. apply Forall_forall. intros p Hp. unfold eview in Hp. apply in_map_iff in Hp.
-        destruct Hp as [e [<- He]]. cbn [snd ev]. apply (Ue y). exact He.
-      + split; [intros Hnt; apply (Uw y Hnt)|]. apply Forall_forall. intros p Hp. unfold wv in Hp. cbn [snd] in Hp.
-        apply in_map_iff in Hp. destruct Hp as [e [<- He]]. cbn [snd ewv]. apply (Uew y). exact He.
-    - intros y [].
-    - intros a [].
-    - intros y Hnt. unfold wv. cbn [fst snd]. split; [change (nd s0 y) with (node_of g0 y); rewrite (Uw y Hnt); constructor|].
-      apply Forall_forall. intros p Hp. apply in_map_iff in Hp. destruct Hp as [e [<- He]]. cbn [snd ewv].
-      rewrite (Uew y e He). constructor. }
-  destruct (assign_loop_spec g0 rank Hr Ht _ order s0 s' HI0 E) as (HI' & _ & Hreach).
+  destruct (assign_loop_spec g0 rank Hr Ht _ order s0 s' (initial_inv g0 rank Hu) E) as (HI' & _ & Hreach).
   exists s'. auto.
+Qed.
+
+(* acceptance (C05 on graphs without cycles): weight assignment succeeds exactly when the specification accepts
+   every node the traversal starts from — for every start order *)
+Theorem dag_accepts_iff g0 rank order :
+  ranked_by g0 rank -> terminals_not_placeholders g0 -> unweighted g0 ->
+  (forall x, In x order -> (2 * rank x + 1 <= 2 * length (g_nodes g0) + 2)%nat) ->
+  ((exists g', assign_weights order g0 = Ok g') <->
+   (forall x, In x order -> is_terminal (n_type (node_of g0 x)) = true \/ acc g0 rank x = true)).
+Proof.
+  intros Hr Ht Hu Hfuel. split.
+  - intros [g' H] x Hx. destruct (dag_invariant g0 rank order g' Hr Ht Hu H) as (s' & _ & HI' & Hreach).
+    destruct (Hreach x Hx) as [Hterm|Hvis]; [left; exact Hterm|right].
+    apply (inv_acc _ _ _ _ HI' x Hvis). intros [].
+  - intros Hacc. unfold assign_weights.
+    destruct (assign_loop_ok g0 rank Hr Ht _ order _ (initial_inv g0 rank Hu) Hacc Hfuel) as [s' ->]. eauto.
 Qed.
 
 Theorem dag_weights g0 rank order g' :
